@@ -487,6 +487,14 @@ fn skip<'a>(
                                 break;
                             }
                         }
+                    } else if matches!(
+                        directive_name(line).as_deref(),
+                        Some("endm") | Some("endmacro")
+                    ) {
+                        // a malformed closing line ends the body all the same; it is handed
+                        // on to be reported, not taken for one more line of the body
+                        ret = Some((line_num, line));
+                        break;
                     }
                     items.push((CodePoint { line_num, num: 3 }, line.to_string()));
                 }
@@ -496,13 +504,15 @@ fn skip<'a>(
                     // a conditional directive is one by its name: it nests and closes even when
                     // its operand is not an expression (`.if @0 == 1` in the body of a macro
                     // that is defined inside a skipped arm)
-                    let directive = if nested_too_deeply(line) {
-                        conditional_directive_by_name(line)
+                    let (directive, malformed) = if nested_too_deeply(line) {
+                        (conditional_directive_by_name(line), true)
                     } else {
                         match document::line(line) {
-                            Ok(Document::DirectiveLine(_, directive, _)) => Some(directive),
-                            Ok(_) => None,
-                            Err(_) => conditional_directive_by_name(line),
+                            Ok(Document::DirectiveLine(_, directive, _)) => {
+                                (Some(directive), false)
+                            }
+                            Ok(_) => (None, false),
+                            Err(_) => (conditional_directive_by_name(line), true),
                         }
                     };
                     {
@@ -520,13 +530,22 @@ fn skip<'a>(
                                     if scoup_count == 0 && other == NextItem::EndIfAll {
                                         // only the closing .endif ends a finished conditional
                                         if directive == Directive::Endif {
-                                            ret = iter.next();
+                                            // (a malformed one is handed on to be reported)
+                                            ret = if malformed {
+                                                Some((num, line))
+                                            } else {
+                                                iter.next()
+                                            };
                                             break;
                                         }
                                     } else if scoup_count == 0 {
                                         ret = if directive == Directive::ElIf {
                                             // found while looking for the arm to assemble
                                             *live_elif = true;
+                                            Some((num, line))
+                                        } else if malformed {
+                                            // the .else / .endif that ends the skipping does
+                                            // not parse: handed on to be reported
                                             Some((num, line))
                                         } else {
                                             iter.next()
